@@ -113,6 +113,16 @@ func StandardAccept(p *Params) func(zInf, r0Inf, ct0Inf int64, hintWeight int) b
 // (wrong length or s1/s2 out of range).
 func SignMuCustom(p *Params, sk []byte, mu [64]byte, rnd [32]byte,
 	accept func(zInf, r0Inf, ct0Inf int64, hintWeight int) bool, maxIter int) (sig []byte, ok bool) {
+	return SignMuDeviating(p, sk, mu, rnd, nil, accept, maxIter)
+}
+
+// SignMuDeviating is SignMuCustom for a signer that additionally replaces the commitment hash:
+// when tamper is not nil, the c~ computed in each iteration is passed through it before the
+// challenge is sampled, and everything after (c, z, the four quantities, the hint, the encoding)
+// is computed consistently from the replaced value. The result is a signature no honest signer
+// produces: Algorithm 8 recomputes c~' from w1' and compares ALL of it with the transmitted c~.
+func SignMuDeviating(p *Params, sk []byte, mu [64]byte, rnd [32]byte, tamper func(cTilde []byte) []byte,
+	accept func(zInf, r0Inf, ct0Inf int64, hintWeight int) bool, maxIter int) (sig []byte, ok bool) {
 
 	rho, key, _, s1, s2, t0, skOK := SKDecode(p, sk)
 	if !skOK {
@@ -140,6 +150,9 @@ func SignMuCustom(p *Params, sk []byte, mu [64]byte, rnd [32]byte,
 			}
 		}
 		cTilde := H(p.CTildeSize, mu[:], W1Encode(p, w1))
+		if tamper != nil {
+			cTilde = tamper(cTilde)
+		}
 		c := SampleInBall(p, cTilde)
 		chat := NTT(c)
 		cs1 := vecInvNTT(scalarVecMulNTT(chat, s1hat))
